@@ -40,8 +40,12 @@ def hav(lat1, lon1, lat2, lon2):
     return 2 * R * math.asin(min(1.0, math.sqrt(a)))
 
 
-def gen_traj(rng, t0, dur, rate_hz, kind):
-    """List of (t, tpv) reports."""
+def gen_traj(rng, t0, dur, rate_hz, kind, time_field=None):
+    """List of (t, tpv) reports.  time_field: None (report time = delivery time), 'coarse' (receiver reports whole seconds, so
+    several reports share one time) or 'step-back' (from some report on the reported time is k seconds behind: leap-second /
+    UTC-offset correction of the receiver)."""
+    step_k = rng.choice((1.0, 2.0, 18.0)) if time_field == "step-back" else 0.0
+    step_at = rng.randrange(4, 14)
     lat, lon = rng.uniform(-60, 60), rng.uniform(-170, 170)
     speed = rng.choice((0.0, 3.0, 13.9, 30.0))
     track = rng.choice((0.0, 2.0, 90.0, 358.0, rng.uniform(0, 360)))
@@ -50,7 +54,7 @@ def gen_traj(rng, t0, dur, rate_hz, kind):
     dt = 1.0 / rate_hz
     n = 0
     pause_at = rng.randrange(3, 12)
-    if kind == "long-pause":
+    if kind in ("long-pause", "constant-still"):
         speed = 0.0            # standing still: no dynamics trigger can hide the missing time trigger
     while t < t0 + dur:
         if kind == "accelerating":
@@ -67,7 +71,8 @@ def gen_traj(rng, t0, dur, rate_hz, kind):
         d = speed * dt
         lat += math.degrees(d * math.cos(math.radians(track)) / 6371000.0)
         lon += math.degrees(d * math.sin(math.radians(track)) / (6371000.0 * max(0.2, math.cos(math.radians(lat)))))
-        tpv = {"class": "TPV", "mode": 3, "time": iso(t), "lat": lat, "lon": lon, "altHAE": 120.0 + n * 0.01, "speed": speed, "track": track,
+        rt_ = math.floor(t) if time_field == "coarse" else (t - step_k if (time_field == "step-back" and n >= step_at) else t)
+        tpv = {"class": "TPV", "mode": 3, "time": iso(rt_), "lat": lat, "lon": lon, "altHAE": 120.0 + n * 0.01, "speed": speed, "track": track,
                "epx": 2.0, "epy": 3.0, "epv": 4.0, "epd": 1.5}
         drop = None
         if kind == "missing-keys" and rng.random() < 0.4:
@@ -124,7 +129,9 @@ def run_cam_case(c, res):
         btp = RecBTP(clock, c.get("faults") or ())
         vd = ctm.VehicleData(station_id=rng.randrange(1, 1 << 31), station_type=rng.choice((5, 5, 6, 10, 3)), vehicle_role=rng.choice((0, 0, 6)))
         tm = ctm.CAMTransmissionManagement(btp, coder, vd)
-        reps = gen_traj(rng, t_base, c["dur"], c["rate"], c["kind"])
+        reps = gen_traj(rng, t_base, c["dur"], c["rate"], c["kind"], c.get("time_field"))
+        if c.get("time_field"):
+            res.count(f"cam.histories_with_report_time_{c['time_field']}")
         # lifecycle: start / stop / restart instants
         life = [("start", t_base + c["start"])]
         if c["stop"] is not None:
@@ -316,13 +323,22 @@ def run_vam_case(c, res):
         coder = VAMCoder()
         btp = RecBTP(clock)
         tm = vtm.VAMTransmissionManagement(btp, coder, vtm.DeviceDataProvider(station_id=rng.randrange(1, 1 << 31), station_type=rng.choice((1, 2))))
-        reps = gen_traj(rng, t_base, c["dur"], c["rate"], c["kind"])
+        reps = gen_traj(rng, t_base, c["dur"], c["rate"], c["kind"], c.get("time_field"))
+        if c.get("time_field"):
+            res.count(f"vam.histories_with_report_time_{c['time_field']}")
         ctx = {"case": c}
         last_vam_t = None
         last_lf_t = None
+        prev_rt = None
+        stepped = False      # the reported time went backwards since the last VAM: 'apart on the reports' timestamps' is undefined
         for i, (t, tpv) in enumerate(reps):
             clock.run_until(t)
             n0 = len(btp.reqs)
+            rt_now = datetime.datetime.fromisoformat(tpv["time"].replace("Z", "+00:00")).timestamp()
+            if prev_rt is not None and rt_now < prev_rt:
+                stepped = True
+                res.count("vam.reported_time_went_backwards")
+            prev_rt = rt_now
             try:
                 tm.location_service_callback(tpv)
             except Exception as e:  # noqa
@@ -340,7 +356,7 @@ def run_vam_case(c, res):
             else:
                 gap_ms = round((t - last_vam_t) * 1000)
                 res.count("vam.min_gap_checked")
-                if sent and gap_ms < 100:
+                if sent and gap_ms < 100 and not stepped:
                     pv = reps[i - 1][1] if i else tpv
                     why = []
                     if "speed" in tpv and abs(tpv["speed"] - last_state["speed"]) > 0.5:
@@ -379,6 +395,7 @@ def run_vam_case(c, res):
                 if has_lf:
                     last_lf_t = t
                 last_vam_t = t
+                stepped = False
                 last_state = {"speed": tpv.get("speed", 0.0), "track": tpv.get("track", 0.0)}
         res.case(repr(c))
     finally:
@@ -399,6 +416,12 @@ def gen_case(rng, which):
         c["stop"] = rng.uniform(2.0, dur - 1.0)
         if rng.random() < 0.6:
             c["restart"] = c["stop"] + rng.choice((0.05, 0.5, 1.3))
+    if which == "cam" and rng.random() < 0.2:
+        c["time_field"] = rng.choice(("coarse", "step-back"))
+    if which == "vam" and rng.random() < 0.15:
+        c["time_field"] = "step-back"
+        if rng.random() < 0.6:
+            c["kind"] = "constant-still"     # standing still: only the elapsed-time trigger can produce a VAM
     if which == "vam" and kind == "dropouts" and rng.random() < 0.3:
         c["rate"] = 1
     if which == "vam" and rng.random() < 0.12:
